@@ -1049,9 +1049,12 @@ class Frame(object):
         # If entirely synthetic, base filterbank structure on existing sample data
         if self.waterfall is None:
             path = pathlib.Path(__file__).parent.resolve() / "assets/sample.fil"
-            self.waterfall = Waterfall(str(path), max_load=max_load)
-            self.waterfall.header['source_name'] = self.source_name
-            self.waterfall.header['rawdatafile'] = 'Synthetic'
+            # Attach the container only once it describes this frame, so that an 
+            # interrupted call cannot leave the sample file's identification behind
+            waterfall = Waterfall(str(path), max_load=max_load)
+            waterfall.header['source_name'] = self.source_name
+            waterfall.header['rawdatafile'] = 'Synthetic'
+            self.waterfall = waterfall
 
         # Describe the frame's current data to the Waterfall container, which is where 
         # blimpy takes the channel count, band edges and start time from when writing. 
